@@ -283,3 +283,7 @@ mod tests {
         trans.commit(1, Relaxed).unwrap();
     }
 }
+
+#[cfg(multiqueue2_verif)]
+#[path = "verif_hooks/countedindex_access.rs"]
+pub mod verif_access;
